@@ -1,5 +1,6 @@
 import GoCrypt.Proofs.CodecShapes
 import GoCrypt.Props.C10General
+import GoCrypt.Props.TiWf
 
 /-!
 # C10 — Marshal / Unmarshal round trip
@@ -393,4 +394,11 @@ example :
 #print axioms GoCrypt.C10General.needs_noSteal
 #print axioms GoCrypt.C10General.numReq_shadowed_param_counted_once
 
+-- the type-info hypothesis discharged (Props/TiWf.lean): every TypeInfo that the model of getTypeInfo builds from supported field types is well-formed,
+-- so the general theorem holds for every struct type getTypeInfo accepts
+#print axioms GoCrypt.TiWf.typeInfoOf_tiWf_iff
+#print axioms GoCrypt.TiWf.typeInfoOf_tiWf
+#print axioms GoCrypt.TiWf.typeInfoOf_core
+#print axioms GoCrypt.TiWf.shipped_supported
+#print axioms GoCrypt.TiWf.roundtrip_of_typeInfoOf
 end GoCrypt.C10
